@@ -503,6 +503,23 @@ func (t *TreeOut) checkPreserve(muts []mutRec) {
 	if last.Panic != "" || last.Budget {
 		return
 	}
+	// a create that is refused up front and hands its whole gas back (depth, balance, nonce
+	// limit - not a collision, which burns the gas after the nonce was taken) has failed:
+	// nothing it did on the way may stay, the creator's nonce included
+	for _, a := range t.H.Attempts {
+		if a.Tx != len(t.Env.Results)-1 || a.Top || a.Frame != nil || (a.Op != 0xf0 && a.Op != 0xf5) || !a.HaveBack || a.OutSeq == 0 || a.Back != a.Supplied {
+			continue
+		}
+		if a.Flag == nil || !a.Flag.IsZero() {
+			continue
+		}
+		for i := range muts {
+			m := &muts[i]
+			if m.seq > a.StepSeq && m.seq < a.OutSeq && !bytes.Equal(m.pre, m.post) {
+				t.add("C04", "C04.refused", m.name, m.seq, "CREATE at seq %d was refused (flag 0, all %d gas handed back) yet changed %s of %x from %x to %x", a.StepSeq, a.Back, m.name, m.a, m.pre, m.post)
+			}
+		}
+	}
 	// innermost frame containing seq, using rollback scopes [SnapSeq, ExitSeq]
 	var frames []*Frame
 	for _, f := range t.H.Frames {
